@@ -48,6 +48,8 @@ type COp struct {
 	// scripted result of the served agent
 	Err      string   `json:",omitempty"`
 	HasErr   bool     `json:",omitempty"`
+	// ErrWithResult: the served agent's failing call returns its result value together with the error
+	ErrWithResult bool `json:",omitempty"`
 	ResKeys  []ResKey `json:",omitempty"`
 	SigFmt   string   `json:",omitempty"`
 	SigLen   int      `json:",omitempty"`
@@ -142,6 +144,8 @@ func genOp(t *rapid.T, label string) COp {
 	fails := rapid.IntRange(0, 3).Draw(t, label+"Fails") == 0
 	if fails {
 		o.Err = genErrText(t, label+"Err")
+		// half of the failing calls hand a result value back next to the error (list / sign / slot calls)
+		o.ErrWithResult = rapid.Bool().Draw(t, label+"EWR")
 	}
 	keyName := func() string { return rapid.SampledFrom(vh.SSHKeyNames).Draw(t, label+"Key") }
 	genKeys := func() []ResKey {
@@ -276,7 +280,7 @@ func execSeq(c SeqCase) (vh.Outcome, error) {
 
 	for i, o := range c.Ops {
 		where := fmt.Sprintf("op %d (%s)", i, o.Kind)
-		script := vh.Script{Err: o.Err, HasErr: o.HasErr}
+		script := vh.Script{Err: o.Err, HasErr: o.HasErr, WithResult: o.ErrWithResult}
 		wantErr := o.Err != "" || o.HasErr
 		data := fill(o.DataLen, o.DataSeed)
 		pk := o.pub()
@@ -606,7 +610,7 @@ func parseSmartcard(raw []byte) (id string, pin, rest []byte, ok bool) {
 	return id, b[4 : 4+l], b[4+l:], true
 }
 
-const ruleSeq = "sequences of 1..10 operations through NewClientFromConn <-> ServeAgent(recording agent) over a unix socket pair: list, sign-with-flags (flags 0/2/4, data 0..64 KiB), add with lifetime / confirm constraints for RSA, ECDSA and Ed25519 keys with and without certificate, remove, remove-all, lock / unlock with arbitrary passphrase bytes, signers, add-hardware-certificate (new format through the client, legacy [31][blob] through Forward), list / read / attest slot with slot names and certificates up to ~8 KiB, wait with any code, raw forward of uninterpreted codes with bodies and replies up to 64 KiB, add / remove smartcard, extension; the served agent returns generated results or generated error texts (a quarter of the operations fail). Oracle: recorded arguments = sent arguments, caller result = scripted result byte-for-byte, served error => caller error (text equal where the protocol carries text), exactly one call reaches the served agent per operation. Excluded by construction (known findings): error text 'SUCCESS' for add-hardware-certificate / wait, empty error text for the slot listing. Non-trivial: >= 1 extended operation and >= 1 failing operation."
+const ruleSeq = "sequences of 1..10 operations through NewClientFromConn <-> ServeAgent(recording agent) over a unix socket pair: list, sign-with-flags (flags 0/2/4, data 0..64 KiB), add with lifetime / confirm constraints for RSA, ECDSA, Ed25519 and DSA keys with and without certificate, remove, remove-all, lock / unlock with arbitrary passphrase bytes, signers, add-hardware-certificate (new format through the client, legacy [31][blob] through Forward), list / read / attest slot with slot names and certificates up to ~8 KiB, wait with any code, raw forward of uninterpreted codes with bodies and replies up to 64 KiB, add / remove smartcard, extension; the served agent returns generated results or generated error texts (a quarter of the operations fail, half of those handing a result value back next to the error). Oracle: recorded arguments = sent arguments, caller result = scripted result byte-for-byte, served error => caller error (text equal where the protocol carries text), exactly one call reaches the served agent per operation; every signer returned by signers signs once and that reaches the served agent as a sign request for exactly the listed identity; key objects the served agent was handed earlier stay byte-identical when re-encoded after later operations. Excluded by construction (known findings): error text 'SUCCESS' for add-hardware-certificate / wait, empty error text for the slot listing. Non-trivial: >= 1 extended operation and >= 1 failing operation."
 
 func TestC13Client(t *testing.T) {
 	vh.Run(t, vh.Spec[SeqCase]{Property: "C13", Name: "TestC13Client", Rule: ruleSeq, Gen: genSeq, Exec: execSeq, Journal: true})
